@@ -366,3 +366,32 @@ PROPS["C17"] = {"jobs": lambda: seq_jobs(*c17_shapes()), "assumptions": SEQ_ASSU
 PROPS["C18"] = {"jobs": lambda: seq_jobs(*c18_shapes()), "assumptions": SEQ_ASSUME + [
     "isolation is checked as: the deliveries and pending entry of endpoint A are exactly those of the reference reassembler that sees only A's frames, whatever foreign frame (valid, invalid, orphan, TECMP-routed, undersized) is interleaved"],
     "level": "bounded symbolic model checking of interleaved two-endpoint sequences against a per-endpoint reference"}
+
+
+# ------------------------------------------------------------------ C14 value semantics
+def c14_jobs():
+    jobs = []
+    common = dict(unwind=60, in_max=140, mem_gb=3, outside="payloads > 24 bytes; typed payloads other than generic and CAN")
+    sym = "all message bytes of source and target, version, ids, counters, vendor id, segment type"
+    for op in range(6):
+        for la in (-1, 0, 1, 8):
+            for lb in ((-1, 0, 8) if op in (2, 3) else (-1,)):
+                for pt in (0xFE, 1):
+                    if pt == 1 and la not in (8,):
+                        continue
+                    quick = (la in (-1, 8) and lb in (-1, 8) and pt == 0xFE) or (op in (0, 2) and pt == 1 and lb == -1) or (op == 4 and la == 0)
+                    la2 = 24 if (pt == 1 and la == 8) else la
+                    jobs.append(Job("c14.cpp", "h_packet_value", defs={"OP": op, "LA": la2, "LB": lb, "PT": pt}, tier="quick" if quick else "thorough", sym=sym, **common))
+    for la in (-1, 0, 1, 8):
+        for lb in (-1, 0, 1, 8):
+            quick = (la, lb) in ((8, 8), (-1, -1), (0, 0), (8, 1), (-1, 0))
+            jobs.append(Job("c14.cpp", "h_packet_eq", defs={"LA": la, "LB": lb}, tier="quick" if quick else "thorough", sym=sym, **common))
+    for la in (0, 1, 8):
+        for lb in (0, 1, 8):
+            quick = (la, lb) in ((8, 8), (0, 0), (1, 8))
+            jobs.append(Job("c14.cpp", "h_payload_eq", defs={"LA": la, "LB": lb}, tier="quick" if quick else "thorough", sym="payload bytes and payload-type bytes of both operands", **common))
+    return jobs
+
+
+PROPS["C14"] = {"jobs": c14_jobs, "assumptions": COMMON_ASSUME + ["payload lengths, the operation and presence of a payload object are concrete shape parameters"],
+                "level": "bounded symbolic model checking of copy/move/assign/compare on packets and payloads built from symbolic messages"}
